@@ -127,6 +127,13 @@ def make_instances(tabs, rng, per_setting, target, only=None, long_every=0):
         for m in ms:
             K, Kmin = shell_for(m, target, rng)
             inst.append({"t": i + 1, "met": m, "K": K, "Kmin": Kmin})
+        if long_every and t["crystal_system"] == "orthorhombic" and i % 5 == 0:
+            # pseudo-tetragonal orthorhombic cell: exact ties between inequivalent reflections (h,k,l) / (k,h,l); the float cell is
+            # then detuned by 4e-8 so that the ties become NEAR-ties whose true order is known exactly
+            mm = rng.choice([4, 5, 6])
+            m = [mm, mm, rng.choice([7, 9, 11]), 0, 0, 0]
+            K, Kmin = shell_for(m, target, rng)
+            inst.append({"t": i + 1, "met": m, "K": K, "Kmin": 0, "pseudo": 1})
         if long_every and (i % long_every == 0 or t["setting"] == "rhombohedral"):
             m, K = long_axis_metric(t["crystal_system"], t["cell_choice"], rng)
             if spd(m):
